@@ -1,7 +1,8 @@
 #!/bin/sh
-# offline setup: build the MIR-dump dependencies, the native replay tool and the cicada binary from /repo; self-test the engine
+# offline setup: MIR-dump dependencies, native replay tool, cicada binary from /repo; engine self-test
 set -e
 export CARGO_NET_OFFLINE=true
-cd /verif
+D=$(cd "$(dirname "$0")" && pwd)
+cd "$D"
 mkdir -p build evidence replays
 python3-vt mirsym/runner.py --setup
